@@ -28,7 +28,7 @@ def msg_class(msg):
 
 
 def run(ctx):
-    res = ctx.model_check("QueryLang", "QueryLang_mc.cfg", name="tlc_gen", timeout=2400, workers=4, defines={
+    res = ctx.model_check("QueryLang", "QueryLang_mc.cfg", name="tlc_gen", timeout=7200, workers=4, defines={
         "Families": '{"grammar", "fields", "damage", "json"}', "MaxLenGrammar": ctx.pick(5, 6), "MaxLenDamage": ctx.pick(4, 5),
         "MaxDepth": 2, "Emit": "TRUE"})
     scripts = res.printed("SCRIPT")
@@ -58,7 +58,7 @@ def run(ctx):
 
     binp = ctx.go_build_test(PKG, FILES)
     outp = ctx.path("trace.ndjson")
-    rc, o = ctx.run_bin(binp, "^TestVerif_C07_Batch$", env={"VERIF_IN": inp, "VERIF_OUT": outp}, timeout=7200)
+    rc, o = ctx.run_bin(binp, "^TestVerif_C07_Batch$", env={"VERIF_IN": inp, "VERIF_OUT": outp}, timeout=14400)
     with open(ctx.path("driver.log"), "w") as fh:
         fh.write(o)
     if rc != 0 or "--- PASS: TestVerif_C07_Batch" not in o:
@@ -68,7 +68,7 @@ def run(ctx):
 
     # the trace spec reads whole groups: split only at input events; no header line
     acc, rej = ctx.validate_trace_sharded("Trace_Total", "Trace_Total.cfg", outp, header_lines=0, shards=8, name="tlcs",
-                                          timeout=3000, group_start=lambda ln: '"ev":"input"' in ln)
+                                          timeout=14400, group_start=lambda ln: '"ev":"input"' in ln)
 
     inputs = {}
     ops_of = collections.defaultdict(list)
